@@ -5,6 +5,7 @@ import (
 	"encoding/binary"
 	"encoding/hex"
 	"fmt"
+	"io"
 )
 
 type Reader struct {
@@ -78,12 +79,30 @@ func (p *Reader) Bytes() []byte {
 	return p.buffer.Bytes()
 }
 
+// short records the read error and reports true when fewer than n octets are left,
+// so that callers can fail before allocating n octets for a length taken from the wire.
+func (p *Reader) short(n int) bool {
+	if n <= p.buffer.Len() {
+		return false
+	}
+	if p.buffer.Len() == 0 {
+		p.opError = newPacketError(io.EOF, "ReadCStringN read")
+	} else {
+		p.opError = newPacketError(fmt.Errorf("read unexpected length"), "ReadBytes")
+	}
+	return true
+}
+
 func (p *Reader) ReadCStringN(n int) string {
 	if p.opError != nil {
 		return ""
 	}
 
 	if n <= 0 {
+		return ""
+	}
+
+	if p.short(n) {
 		return ""
 	}
 
@@ -113,6 +132,10 @@ func (p *Reader) ReadCStringNWithoutTrim(n int) string {
 	}
 
 	if n <= 0 {
+		return ""
+	}
+
+	if p.short(n) {
 		return ""
 	}
 
@@ -155,6 +178,10 @@ func (p *Reader) ReadNBytes(n int) []byte {
 	}
 
 	if n <= 0 {
+		return nil
+	}
+
+	if p.short(n) {
 		return nil
 	}
 
